@@ -1,5 +1,6 @@
 mod alloc;
 mod bitops;
+mod branchupd;
 mod core_mp;
 mod core_pp;
 mod crash;
@@ -71,6 +72,7 @@ fn main() {
         "delta-log" => delta::run_log(seed, cases, &mut sink),
         "overflow" => overflow::run(seed, cases, &mut sink),
         "leafupd" => leafupd::run(seed, cases, &mut sink),
+        "branchupd" => branchupd::run(seed, cases, &mut sink),
         "core-pp" => core_pp::run(seed, cases, &mut sink),
         "core-mp" => core_mp::run(seed, cases, &mut sink),
         "core-mp-corpus" => {
